@@ -44,6 +44,7 @@ static void endJson(vt::J &j, const ConnEnd &e)
 
 struct World {
     Router *router = nullptr;
+    std::map<const void *, long long> seenIds;     // every object ever seen live: deleted-object lists hold freed pointers
     std::map<int, ShapeRef *> shapes;
     std::map<int, JunctionRef *> juncs;
     std::map<int, ConnRef *> conns;
@@ -55,6 +56,8 @@ struct World {
 static void snapshot(vt::J &j, World &w)
 {
     Router *r = w.router;
+    for (Obstacle *o : r->m_obstacles) w.seenIds[o] = o->id();
+    for (ConnRef *c : r->connRefs) w.seenIds[c] = c->id();
     j.k("shapes").arr();
     for (Obstacle *o : r->m_obstacles) {
         ShapeRef *s = dynamic_cast<ShapeRef *>(o);
@@ -88,8 +91,9 @@ static void snapshot(vt::J &j, World &w)
     HyperedgeNewAndDeletedObjectLists L = r->newAndDeletedObjectListsFromHyperedgeImprovement();
     j.k("newJ").arr(); for (auto q : L.newJunctionList) j.i(q->id()); j.end();
     j.k("newC").arr(); for (auto q : L.newConnectorList) j.i(q->id()); j.end();
-    j.k("delJ").arr(); for (auto q : L.deletedJunctionList) j.i(q->id()); j.end();
-    j.k("delC").arr(); for (auto q : L.deletedConnectorList) j.i(q->id()); j.end();
+    // (deleted objects may already be freed: identify them by address, never dereference)
+    j.k("delJ").arr(); for (auto q : L.deletedJunctionList) j.i(w.seenIds.count(q) ? w.seenIds[q] : -1); j.end();
+    j.k("delC").arr(); for (auto q : L.deletedConnectorList) j.i(w.seenIds.count(q) ? w.seenIds[q] : -1); j.end();
 }
 
 static ConnEnd mkEnd(World &w, int k, int a, int b)
